@@ -304,6 +304,28 @@ func (m *monitor) viol(k int, msg string) {
 	m.nv++
 }
 
+// always: predicates that do not depend on the operation sequence being well-formed
+// (they are judged on the wild cases too): handed-out slices never change, and a
+// real rate limiter has recorded exactly the in-memory size of the entries
+func (m *monitor) always(im *impl, k int) {
+	if m.st == nil {
+		return
+	}
+	im.checkHeld(func(msg string) { m.violAlways(k, msg) })
+	if sz, on := im.log.RLSize(); on {
+		if want := pb.GetEntrySliceInMemSize(im.log.InMem().Entries); sz != want {
+			m.violAlways(k, fmt.Sprintf("rate-limiter-drift: recorded in-memory log size %d, the in-memory entries take %d", sz, want))
+		}
+	}
+}
+
+func (m *monitor) violAlways(k int, msg string) {
+	if m.nv < 3 {
+		m.st.Violation(m.id, fmt.Sprintf("op %d: %s", k, msg))
+	}
+	m.nv++
+}
+
 func (m *monitor) before(im *impl, k int, f []string) {
 	if m.on && !m.r.wfOp(f) {
 		m.on = false
